@@ -193,9 +193,13 @@ def make_case(seed, idx, tier):
             "lscs": ["user", "melimit", "dontstop"],
             "maximize": bool((idx // 4) % 2),
             "fams": ["rastrigin", "funnel", "plateau", "sphere"],
+            "allow_cutoff": False,
+            "entry": "tree",
         }
         d = gen.gen_tree_case(rng, prof)
         d["kind"] = "c10run"
+        if (idx // 4) % 2 and d["gsc"]["k"] != "precision":
+            d["reuse"] = True  # the same mechanism / filter objects serve a second tree
         return d
     prof = {
         "dim": (2, 3),
@@ -222,8 +226,9 @@ def make_case(seed, idx, tier):
 
 def run_case(desc):
     if desc["kind"] == "c10run":
-        ctx = harness.run_case(desc, [C10Sprout()])
-        return run_result(ctx, desc)
+        from ..props import run_desc
+
+        return run_desc(desc, lambda: [C10Sprout()])
     return run_direct(desc)
 
 
